@@ -83,7 +83,10 @@ def cases(ctx):
     # the real lock: actor 1 validates, its lease lapses, actor 2 takes the lock over and commits, actor 1 resumes at its fencing check
     for kinds in (["append", "append"], ["delsnap", "append"], ["append", "expire"]):
         out.append({"backend": "s3cas", "topology": "separate", "clock": "real", "actors": 2, "kinds": kinds, "lock": "real",
-                    "chooser": _lease_lapses_after_validation, "chooser_takes_env": True, "model_cfg": NOLOCK_CFG})
+                    "chooser": _lease_lapses_after_validation, "chooser_takes_env": True, "model_cfg": NOLOCK_CFG, "strict_fence": True})
+    # the same takeover, and from then on the superseded committer cannot READ the lock object (503s): its fence must fail closed
+    out.append({"backend": "s3cas", "topology": "separate", "clock": "real", "actors": 2, "kinds": ["append", "append"], "lock": "real",
+                "chooser": _lease_lapses_after_validation, "chooser_takes_env": True, "model_cfg": NOLOCK_CFG, "lock_get_fault_actor": 1, "no_model": True, "strict_fence": True})
     # the pointer object is missing (lost hint): both committers recover by listing; the commit point must still be create-if-absent
     for lock in ("none", "none", "none", "real"):
         out.append({"backend": "s3cas", "topology": "separate", "clock": "real", "actors": 2, "kinds": ["append", "append"], "lock": lock,
